@@ -36,6 +36,7 @@ STRUCTS = {
     "DD": [F("a", ("u", 8)), F("b", "str"), F("c", "bool")],
     "DE": [F("n", ("i", 64), dup="dup"), F("t", "str", dup="last", miss=("def", "(none)")), F("f", "f32", dup="dup"), F("z", "bool", miss=("def", "(none)"))],
 }
+ALL = dict(STRUCTS)          # every instance the generators know (the attribute-table part adds its own: props/C18_attrs.py)
 OPTION_FIELDS = {("DH", "opt_q"), ("DH", "opt_c"), ("DA", "first"), ("DB", "last"), ("DC", "opt_sub"), ("DE", "t"), ("DE", "z")}
 
 
@@ -160,7 +161,7 @@ def gen_fit(rng, sh, st, bad=0.0):
     if k == "seq":
         return {"t": "arr", "v": [gen_fit(rng, sh[1], st) for _ in range(rng.choice([0, 1, 2, 3]))]}
     if k == "derived":
-        S = STRUCTS[sh[1]]
+        S = ALL[sh[1]]
         mult = [rng.choice([1, 1, 1, 0, 2]) if f["dup"] == "once" and f["miss"] == "req" else rng.choice([0, 1, 1, 2, 3]) for f in S]
         if rng.random() < 0.7:
             mult = [1 if (f["dup"] == "once" and f["miss"] == "req") else m for f, m in zip(S, mult)]
@@ -174,7 +175,7 @@ def gen_fit(rng, sh, st, bad=0.0):
 
 
 def build_obj(rng, sname, order, st, unknowns, bad, foreign=None):
-    S = STRUCTS[sname]
+    S = ALL[sname]
     tokened = S[0]["token"] is not None
     fields = []
     st = dict(st, _parent_keys=[(f["key"], f["token"]) for f in S])
@@ -303,6 +304,11 @@ def run(ctx):
             ctx.fail("field-semantics-" + p.split(":")[0], "%s path on %s returns %s, the field semantics say %s" % (p, cases[k].split("\t")[-2], o[:200], exp[:200]), [cases[k]], [o], exp)
     # the extracted Derive.visit folds the same key/value lists (values pre-evaluated per occurrence)
     ctx.correspond("model", mcases, nontrivial=nt)
+    # >>> a_c18 (wave 4): attribute tables read off the harness source, new instances, spec_visit, order independence, integer keys
+    from props import C18_attrs
+    import sys
+    C18_attrs.run(ctx, sys.modules[__name__])
+    # <<< a_c18
 
 
 def search(ctx):
